@@ -27,6 +27,10 @@ NONTRIVIAL_FLOOR = {"quick": 1000, "thorough": 10000}
 LIMIT = {"quick": 18, "thorough": 22}
 
 
+# thorough tier: coverage-guided (atheris) drive of the same generator and oracle: kind -> (shards, cases per shard)
+FUZZ = {"forward": (8, 20000), "backward": (8, 20000)}
+
+
 def plan(tier):
     return [("exhaustive", 16, 0), ("forward", 8, (12000 if tier == "quick" else 240000) // 8),
             ("backward", 8, (12000 if tier == "quick" else 240000) // 8)]
